@@ -230,7 +230,7 @@ def _unpack_stack(scope, only_errors=True):
     # push errors "down" to where they were first raised / first observed
     for i in range(len(stack) - 1):
         cur, nxt = stack[i], stack[i + 1]
-        if cur[3] == nxt[3]:
+        if cur[3] is nxt[3]:  # (the same error object; user exceptions may define their own __eq__)
             cur[3] = None
     if only_errors:  # trim the stack to the last error
         # leave at least 1 to not break formatting func below
